@@ -10,6 +10,7 @@
   STMT (space separated words, prefix notation, every operator has a fixed arity):
     sel (all|distinct) F W g<k> E×k a<k> AGG×k [hv E] P o<k> ORD×k lim(<n>|-) off(<n>|-)
         F   := t<k> | j (inner|left|right|full|cross) F F (- | on E)
+             | d F W p<k> E×k                   derived table (SELECT E×k FROM F [WHERE …]) AS r; its columns are c0 … c<k-1>
         W   := - | w E
         AGG := cnt* | cnt E | sum E | avg E | min E | max E | cntd E | sumd E | avgd E | mind E | maxd E   (…d = DISTINCT)
         hv E: HAVING (optional word)
@@ -143,6 +144,7 @@ def reparse (T : Parser.Table) (e : Expr) : Expr :=
 def reparseFrom (T : Parser.Table) : From → From
   | .table t => .table t
   | .join k l r on => .join k (reparseFrom T l) (reparseFrom T r) (on.map (reparse T))
+  | .derived f w items => .derived (reparseFrom T f) (w.map (reparse T)) (items.map (reparse T))
 
 def reparseStmt (T : Parser.Table) : Stmt → Stmt
   | .select q => .select { q with
@@ -273,6 +275,11 @@ def pOn (fuel : Nat) : P (Option Expr)
   | "on" :: ws => (pExpr fuel ws).map fun (e, r) => (some e, r)
   | _ => none
 
+def pWhere (fuel : Nat) : P (Option Expr)
+  | "-" :: ws => some (none, ws)
+  | "w" :: ws => (pExpr fuel ws).map fun (e, r) => (some e, r)
+  | _ => none
+
 def pFrom : Nat → P From
   | 0, _ => none
   | _, [] => none
@@ -285,12 +292,12 @@ def pFrom : Nat → P From
         | some k => (pFrom fuel ws).bind fun (l, r) => (pFrom fuel r).bind fun (rr, r) =>
             (pOn (fuel + 1) r).map fun (on, r) => (.join k l rr on, r)
       | [] => none
+    else if w == "d" then
+      (pFrom fuel ws).bind fun (f, r) => (pWhere (fuel + 1) r).bind fun (wh, r) =>
+        match r with
+        | p :: r => (numAfter "p" p).bind fun np => (pExprs (fuel + 1) np r).map fun (es, r) => (.derived f wh es, r)
+        | [] => none
     else (numAfter "t" w).map fun t => (.table t, ws)
-
-def pWhere (fuel : Nat) : P (Option Expr)
-  | "-" :: ws => some (none, ws)
-  | "w" :: ws => (pExpr fuel ws).map fun (e, r) => (some e, r)
-  | _ => none
 
 def pAgg (fuel : Nat) : P Agg
   | "cnt*" :: ws => some ({ fn := .countStar, arg := .lit .null }, ws)
